@@ -52,6 +52,9 @@ type Env struct {
 	eng     *promql.Engine
 	// scripted answers of the fake database for the current request
 	script func(string) [][]driver.Value
+	// shape-selecting options of the current request (options.go) and the endpoint that served it
+	o        Options
+	endpoint string
 }
 
 func newBackend(rec *Recorder, cluster string) *backend {
@@ -128,15 +131,27 @@ func drain[T any](ch chan T, err error) error {
 // ---- LogQL -------------------------------------------------------------------------------------------------------
 
 func (e *Env) logqlRange(query string, cluster bool) ([]string, error) {
+	e.endpoint = "logql_range"
+	if e.o.Instant {
+		return e.logqlInstant(query, cluster)
+	}
+	limit, step := int64(100), int64(1000)
+	if e.o.NoLimit {
+		limit = 0
+	}
+	if e.o.StepMs != 0 {
+		step = e.o.StepMs
+	}
 	return e.capture(func() error {
-		ch, err := e.be(cluster).qr.QueryRange(context.Background(), query, fromS*1e9, toS*1e9, 1000, 100, false)
+		ch, err := e.be(cluster || e.o.Cluster).qr.QueryRange(context.Background(), query, fromS*1e9, toS*1e9, step, limit, e.o.Forward)
 		return drain(ch, err)
 	})
 }
 
 func (e *Env) logqlInstant(query string, cluster bool) ([]string, error) {
+	e.endpoint = "logql_range"
 	return e.capture(func() error {
-		ch, err := e.be(cluster).qr.QueryInstant(context.Background(), query, toS*1e9, 1000, 100)
+		ch, err := e.be(cluster || e.o.Cluster).qr.QueryInstant(context.Background(), query, toS*1e9, 1000, 100)
 		return drain(ch, err)
 	})
 }
@@ -144,6 +159,7 @@ func (e *Env) logqlInstant(query string, cluster bool) ([]string, error) {
 // logqlDirect drives the exported ClickHouse planner entry point with the whole script (no split between the
 // SQL engine and the in-process engine): reaches the planners production never routes a stage to.
 func (e *Env) logqlDirect(query string, cluster bool) ([]string, error) {
+	e.endpoint = "logql_direct"
 	return e.capture(func() error {
 		script, err := logql_parser.Parse(query)
 		if err != nil {
@@ -180,22 +196,45 @@ func (e *Env) logqlDirect(query string, cluster bool) ([]string, error) {
 }
 
 func (e *Env) labelValues(name string, match []string, cluster bool) ([]string, error) {
+	e.endpoint = "label_values"
+	tp := uint16(1)
+	if e.o.OtherType {
+		tp = 2
+	}
+	if e.o.ExtraMatch {
+		match = append(append([]string{}, match...), `{zz="yy"}`, `{ww=~"vv.+"}`)
+	}
 	return e.capture(func() error {
-		ch, err := e.be(cluster).ql.Values(context.Background(), name, match, fromS*1000, toS*1000, 1)
+		ch, err := e.be(cluster || e.o.Cluster).ql.Values(context.Background(), name, match, fromS*1000, toS*1000, tp)
 		return drain(ch, err)
 	})
 }
 
 func (e *Env) promLabelValues(name string, match []string, cluster bool) ([]string, error) {
+	e.endpoint = "label_values"
+	tp := uint16(2)
+	if e.o.OtherType {
+		tp = 1
+	}
+	if e.o.ExtraMatch {
+		match = append(append([]string{}, match...), `m2{zz="yy"}`, `{ww=~"vv.+"}`)
+	}
 	return e.capture(func() error {
-		ch, err := e.be(cluster).ql.PromValues(context.Background(), name, match, fromS*1000, toS*1000, 2)
+		ch, err := e.be(cluster || e.o.Cluster).ql.PromValues(context.Background(), name, match, fromS*1000, toS*1000, tp)
 		return drain(ch, err)
 	})
 }
 
 func (e *Env) series(match []string, tp uint16, cluster bool) ([]string, error) {
+	e.endpoint = "series"
+	if e.o.OtherType {
+		tp = 3 - tp
+	}
+	if e.o.ExtraMatch {
+		match = append(append([]string{}, match...), `{zz="yy"}`, `up{ww=~"vv.+"}`)
+	}
 	return e.capture(func() error {
-		ch, err := e.be(cluster).ql.Series(context.Background(), match, fromS*1000, toS*1000, tp)
+		ch, err := e.be(cluster || e.o.Cluster).ql.Series(context.Background(), match, fromS*1000, toS*1000, tp)
 		return drain(ch, err)
 	})
 }
@@ -212,58 +251,84 @@ func complexityScript(q string) [][]driver.Value {
 }
 
 func (e *Env) traceqlSearch(q string, complex bool) ([]string, error) {
-	if complex {
+	e.endpoint = "traceql_search"
+	if complex || e.o.Sharded {
 		e.script = complexityScript
 	}
+	limit := 20
+	if e.o.NoLimit {
+		limit = 0
+	}
 	return e.capture(func() error {
-		ch, err := e.single.tempo.SearchTraceQL(context.Background(), q, 20, fromT, toT)
+		ch, err := e.single.tempo.SearchTraceQL(context.Background(), q, limit, fromT, toT)
 		return drain(ch, err)
 	})
 }
 
 func (e *Env) traceqlTagsV2(q string, complex bool) ([]string, error) {
-	if complex {
+	e.endpoint = "traceql_tags"
+	if complex || e.o.Sharded {
 		e.script = complexityScript
 	}
+	limit := 2000
+	if e.o.NoLimit {
+		limit = 0
+	}
 	return e.capture(func() error {
-		ch, err := e.single.tempo.TagsV2(context.Background(), q, fromT, toT, 2000)
+		ch, err := e.single.tempo.TagsV2(context.Background(), q, fromT, toT, limit)
 		return drain(ch, err)
 	})
 }
 
 func (e *Env) traceqlValuesV2(key, q string, complex bool) ([]string, error) {
-	if complex {
+	e.endpoint = "traceql_values"
+	if complex || e.o.Sharded {
 		e.script = complexityScript
 	}
+	limit := 2000
+	if e.o.NoLimit {
+		limit = 0
+	}
 	return e.capture(func() error {
-		ch, err := e.single.tempo.ValuesV2(context.Background(), key, q, fromT, toT, 2000)
+		ch, err := e.single.tempo.ValuesV2(context.Background(), key, q, fromT, toT, limit)
 		return drain(ch, err)
 	})
 }
 
 func (e *Env) tempoValues(tag string, cluster bool) ([]string, error) {
+	e.endpoint = "tempo_values_v1"
 	return e.capture(func() error {
-		ch, err := e.be(cluster).tempo.Values(context.Background(), tag)
+		ch, err := e.be(cluster || e.o.Cluster).tempo.Values(context.Background(), tag)
 		return drain(ch, err)
 	})
 }
 
 func (e *Env) tempoSearch(tags string, withWindow bool) ([]string, error) {
+	e.endpoint = "tempo_search"
+	limit := 10
+	if e.o.NoLimit {
+		limit = 0
+	}
 	return e.capture(func() error {
 		var from, to, minD, maxD int64
-		if withWindow {
+		if withWindow || e.o.Window {
 			from, to, minD, maxD = fromS*1e9, toS*1e9, 1e6, 1e9
 		}
-		ch, err := e.single.tempo.Search(context.Background(), tags, minD, maxD, 10, from, to)
+		ch, err := e.single.tempo.Search(context.Background(), tags, minD, maxD, limit, from, to)
 		return drain(ch, err)
 	})
 }
 
 // tempoTrace goes through the real controller because the controller is the front end that validates the id.
 func (e *Env) tempoTrace(traceID string) ([]string, error) {
+	e.endpoint = "tempo_trace"
+	url := "/api/traces/x"
+	if e.o.Window {
+		url += "?start=1700000000&end=1700000600"
+	}
 	return e.capture(func() error {
 		ctl := &controllerv1.TempoController{Service: e.single.tempo}
-		r := httptest.NewRequest("GET", "/api/traces/x", nil)
+		r := httptest.NewRequest("GET", url, nil)
 		r = mux.SetURLVars(r, map[string]string{"traceId": traceID})
 		w := httptest.NewRecorder()
 		ctl.Trace(w, r)
@@ -277,6 +342,7 @@ func (e *Env) tempoTrace(traceID string) ([]string, error) {
 // ---- PromQL (real engine over the repository's Queryable) ---------------------------------------------------------
 
 func (e *Env) promRange(query string, start, end time.Time, step time.Duration, rows bool, cluster bool) ([]string, error) {
+	e.endpoint = "prom_range"
 	if rows {
 		e.script = func(q string) [][]driver.Value {
 			if strings.Contains(q, "fp_sel") {
@@ -299,27 +365,57 @@ func (e *Env) promRange(query string, start, end time.Time, step time.Duration, 
 // ---- Pyroscope ------------------------------------------------------------------------------------------------------
 
 func (e *Env) profCall(kind string, cluster bool, a ...string) ([]string, error) {
-	ps := e.be(cluster).prof
+	ps := e.be(cluster || e.o.Cluster).prof
 	ctx := context.Background()
+	o := e.o
+	scripts := func(sel string) []string {
+		switch {
+		case o.NoScripts:
+			return nil
+		case o.TwoScripts:
+			return []string{sel, `{k2=~"v2.+"}`}
+		}
+		return []string{sel}
+	}
+	agg := v1.TimeSeriesAggregationType_TIME_SERIES_AGGREGATION_TYPE_SUM
+	if o.Average {
+		agg = v1.TimeSeriesAggregationType_TIME_SERIES_AGGREGATION_TYPE_AVERAGE
+	}
+	var groupBy, labels []string
+	if o.GroupBy {
+		groupBy = []string{"k", "g"}
+	}
+	if o.Labels {
+		labels = []string{"k", "l"}
+	}
+	step := int64(15)
+	if o.Step60 {
+		step = 60
+	}
+	e.endpoint = map[string]string{"label_names": "prof_label_names", "label_values": "prof_label_values",
+		"label_values_noscript": "prof_label_values", "merge_stacktraces": "prof_merge_stacktraces",
+		"select_series": "prof_select_series", "select_series_avg_groupby": "prof_select_series",
+		"merge_profiles": "prof_merge_profiles", "series": "prof_series", "series2_labels": "prof_series",
+		"render_diff": "prof_render_diff", "analyze": "prof_analyze"}[kind]
 	return e.capture(func() error {
 		var err error
 		switch kind {
 		case "label_names":
-			_, err = ps.LabelNames(ctx, []string{a[0]}, fromT, toT)
+			_, err = ps.LabelNames(ctx, scripts(a[0]), fromT, toT)
 		case "label_values":
-			_, err = ps.LabelValues(ctx, []string{a[0]}, a[1], fromT, toT)
+			_, err = ps.LabelValues(ctx, scripts(a[0]), a[1], fromT, toT)
 		case "label_values_noscript":
 			_, err = ps.LabelValues(ctx, nil, a[0], fromT, toT)
 		case "merge_stacktraces":
 			_, err = ps.MergeStackTraces(ctx, a[0], a[1], fromT, toT)
 		case "select_series":
-			_, err = ps.SelectSeries(ctx, a[0], a[1], nil, v1.TimeSeriesAggregationType_TIME_SERIES_AGGREGATION_TYPE_SUM, 15, fromT, toT)
+			_, err = ps.SelectSeries(ctx, a[0], a[1], groupBy, agg, step, fromT, toT)
 		case "select_series_avg_groupby":
-			_, err = ps.SelectSeries(ctx, a[0], a[1], []string{"k", a[2]}, v1.TimeSeriesAggregationType_TIME_SERIES_AGGREGATION_TYPE_AVERAGE, 15, fromT, toT)
+			_, err = ps.SelectSeries(ctx, a[0], a[1], []string{"k", a[2]}, v1.TimeSeriesAggregationType_TIME_SERIES_AGGREGATION_TYPE_AVERAGE, step, fromT, toT)
 		case "merge_profiles":
 			_, err = ps.MergeProfiles(ctx, a[0], a[1], fromT, toT)
 		case "series":
-			_, err = ps.TimeSeries(ctx, []string{a[0]}, nil, fromT, toT)
+			_, err = ps.TimeSeries(ctx, scripts(a[0]), labels, fromT, toT)
 		case "series2_labels":
 			_, err = ps.TimeSeries(ctx, []string{a[0], `{k="v"}`}, []string{"k", a[1]}, fromT, toT)
 		case "render_diff":
